@@ -52,9 +52,12 @@ pub fn hex(b: &[u8]) -> String {
     if b.is_empty() {
         return "-".to_string();
     }
+    // (table lookup: the implementation-only cases print tens of megabytes of packets)
+    const DIGITS: &[u8; 16] = b"0123456789abcdef";
     let mut s = String::with_capacity(b.len() * 2);
     for x in b {
-        s.push_str(&format!("{:02x}", x));
+        s.push(DIGITS[(x >> 4) as usize] as char);
+        s.push(DIGITS[(x & 15) as usize] as char);
     }
     s
 }
@@ -129,7 +132,7 @@ pub struct Trace {
 /// Profiles that run on the implementation ONLY: their op lines stand for inputs far too large for the line protocol (a
 /// 1.2 GB message), so they are never piped to the Lean driver and no correspondence is claimed for them; the statement they
 /// reproduce is proved on the Lean side separately. Their cases are counted in `impl_only_cases` of the result file.
-pub const IMPL_ONLY_PROFILES: &[&str] = &["rn-known"];
+pub const IMPL_ONLY_PROFILES: &[&str] = &["rn-known", "rn-slice-wrap"];
 
 pub fn impl_only(profile: &str) -> bool {
     IMPL_ONLY_PROFILES.contains(&profile)
